@@ -8,7 +8,6 @@ import (
 	"math/big"
 	mathrand "math/rand"
 	"sync"
-	"sync/atomic"
 
 	"github.com/pkg/errors"
 	"golang.org/x/sync/singleflight"
@@ -411,7 +410,6 @@ type ShardedMap[K cmp.Ordered, V any] struct {
 	newMap  func() LockedMap[K, V]
 	sharded []LockedMap[K, V]
 	seed    uint32
-	length  int64
 	l       sync.RWMutex
 }
 
@@ -541,12 +539,7 @@ func (l *ShardedMap[K, V]) SetValue(k K, v V) (added bool) {
 	case isclosed:
 		return false
 	default:
-		added = i.SetValue(k, v)
-		if added {
-			atomic.AddInt64(&l.length, 1)
-		}
-
-		return added
+		return i.SetValue(k, v)
 	}
 }
 
@@ -555,12 +548,7 @@ func (l *ShardedMap[K, V]) RemoveValue(k K) bool {
 	case isclosed, !found:
 		return false
 	default:
-		removed := i.RemoveValue(k)
-		if removed {
-			atomic.AddInt64(&l.length, -1)
-		}
-
-		return removed
+		return i.RemoveValue(k)
 	}
 }
 
@@ -586,22 +574,7 @@ func (l *ShardedMap[K, V]) GetOrCreate(
 	case isclosed:
 		return ErrLockedMapClosed.WithStack()
 	default:
-		var created bool
-
-		err := i.GetOrCreate(
-			k,
-			func(v V, c bool) error {
-				created = c
-
-				return f(v, c)
-			},
-			create,
-		)
-		if err == nil && created {
-			atomic.AddInt64(&l.length, 1)
-		}
-
-		return err
+		return i.GetOrCreate(k, f, create)
 	}
 }
 
@@ -610,12 +583,7 @@ func (l *ShardedMap[K, V]) Set(k K, f func(V, bool) (V, error)) (v V, created bo
 	case isclosed:
 		return v, false, ErrLockedMapClosed.WithStack()
 	default:
-		v, created, err := i.Set(k, f)
-		if err == nil && created {
-			atomic.AddInt64(&l.length, 1)
-		}
-
-		return v, created, err
+		return i.Set(k, f)
 	}
 }
 
@@ -624,12 +592,7 @@ func (l *ShardedMap[K, V]) Remove(k K, f func(V, bool) error) (bool, error) {
 	case isclosed:
 		return false, ErrLockedMapClosed.WithStack()
 	case found:
-		removed, err := i.Remove(k, f)
-		if err == nil && removed {
-			atomic.AddInt64(&l.length, -1)
-		}
-
-		return removed, err
+		return i.Remove(k, f)
 	}
 
 	var v V
@@ -647,17 +610,7 @@ func (l *ShardedMap[K, V]) SetOrRemove(k K, f func(V, bool) (V, bool, error)) (v
 	case isclosed:
 		return v, false, false, ErrLockedMapClosed.WithStack()
 	default:
-		j, created, removed, err := i.SetOrRemove(k, f)
-		if err == nil {
-			switch {
-			case created:
-				atomic.AddInt64(&l.length, 1)
-			case removed:
-				atomic.AddInt64(&l.length, -1)
-			}
-		}
-
-		return j, created, removed, err
+		return i.SetOrRemove(k, f)
 	}
 }
 
@@ -729,7 +682,22 @@ func (l *ShardedMap[K, V]) TraverseMap(f func(LockedMap[K, V]) bool) bool {
 }
 
 func (l *ShardedMap[K, V]) Len() int {
-	return int(atomic.LoadInt64(&l.length))
+	l.l.RLock()
+	defer l.l.RUnlock()
+
+	// NOTE counts the sharded maps; the counter, updated out of the lock, was
+	// broken by Empty() and Close().
+	var n int
+
+	for i := range l.sharded {
+		if l.sharded[i] == nil {
+			continue
+		}
+
+		n += l.sharded[i].Len()
+	}
+
+	return n
 }
 
 func (l *ShardedMap[K, V]) Close() {
@@ -746,7 +714,6 @@ func (l *ShardedMap[K, V]) Close() {
 
 	clear(l.sharded)
 	l.sharded = nil
-	atomic.StoreInt64(&l.length, 0)
 }
 
 func (l *ShardedMap[K, V]) Empty() {
@@ -760,8 +727,6 @@ func (l *ShardedMap[K, V]) Empty() {
 
 		l.sharded[i].Empty()
 	}
-
-	atomic.StoreInt64(&l.length, 0)
 }
 
 func (l *ShardedMap[K, V]) loadItem(k interface{}) (_ LockedMap[K, V], found, iscloed bool) {
